@@ -441,3 +441,49 @@ def drop_equal_factors(spec):
         seen.append(named)
         out.append(f)
     return out
+
+
+# ----------------------------------------------------------------------------------------------
+# discrete data sets
+# ----------------------------------------------------------------------------------------------
+DATA_COLS = ["A", "B", "C", "D", "E", "F"]
+
+
+@st.composite
+def data_spec(draw, min_cols=2, max_cols=5, min_rows=1, max_rows=40, max_card=4, min_card=1, kinds=("int", "cat", "obj"),
+              extra_states=True, weights=False, names=None, dependent=False):
+    """{"columns", "states" (declared, sorted), "kind" per column, "rows" (state indexes), "weights"}.
+    Declared state lists are sorted (pgmpy sorts observed states itself) and may contain states that never occur."""
+    n = draw(st.integers(min_cols, max_cols))
+    cols = list(names[:n]) if names else list(draw(st.permutations(DATA_COLS)))[:n]
+    nrows = draw(st.integers(min_rows, max_rows))
+    kind = draw(st.sampled_from(list(kinds)))
+    states, ckinds = [], []
+    for _ in cols:
+        k = draw(st.sampled_from([c for c in [1, 2, 2, 2, 3, 3, 4] if min_card <= c <= max_card]))
+        ck = kind if kind != "mixed" else draw(st.sampled_from(["int", "cat", "obj"]))
+        if ck == "int":
+            base = draw(st.sampled_from([0, 0, 1, 5]))
+            sts = [base + i for i in range(k)]
+        else:
+            sts = sorted([f"s{i}" for i in range(k)])
+        states.append(sts)
+        ckinds.append(ck)
+    sparse = draw(st.booleans())
+    rows = []
+    for r in range(nrows):
+        row = []
+        for j, sts in enumerate(states):
+            k = len(sts)
+            if dependent and j > 0 and draw(st.integers(0, 3)) > 0:
+                row.append(row[j - 1] % k)  # noisy copy of the previous column
+            elif sparse:
+                row.append(draw(st.integers(0, max(0, k - 2))) if extra_states and draw(st.integers(0, 4)) > 0 else draw(st.integers(0, k - 1)))
+            else:
+                row.append(draw(st.integers(0, k - 1)))
+        rows.append(row)
+    w = None
+    if weights:
+        w = [draw(st.integers(1, 4)) for _ in range(nrows)]
+    return {"columns": cols, "states": states, "kinds": ckinds, "rows": rows, "weights": w,
+            "pass_state_names": bool(extra_states) and draw(st.booleans())}
